@@ -104,13 +104,17 @@ def run(case):
     s, order, M = p["scale"], p["order"], p["M"]
     S = p["S"]
     shape = (S, S - 2 * int(rng.integers(0, 2)), S + 2) if p["noncubic"] else (S, S, S)
-    blobs = gen.make_blobs(rng, shape, n=5, sigma=(1.3, 1.9), margin=M + 4.8)
-    tmpl = gen.render_box(shape, blobs)
     kind = p["kind"]
+    # a hand-made LoaderGroup of two loaders with different pixel sizes: the common range in nm is a different
+    # number of pixels for each of them (the finer one searches 1.5 M pixels)
+    hand = kind == "group" and gen.rng_for(p["iseed"], "c01-hand").random() < 0.5
+    Mx = 1.5 * M if hand else M
+    blobs = gen.make_blobs(rng, shape, n=5, sigma=(1.3, 1.9), margin=Mx + 4.8)
+    tmpl = gen.render_box(shape, blobs)
     rot_arg, rots = rotation_set(rng, p["rotset"] if kind not in ("notemplate",) else "none")
     Model = model_class(p["model"])
     nm = p["nmol"] if kind != "notemplate" else 6
-    half = float(np.linalg.norm(shape)) / 2 + M + 4
+    half = float(np.linalg.norm(shape)) / 2 + Mx + 4
     ms_nm = M * s
     kw = {} if rot_arg is None else {"rotations": rot_arg}
 
@@ -160,6 +164,30 @@ def run(case):
         mole = Molecules(pos_in, Rotation.from_quat(np.stack([r.as_quat() for r in R_in])),
                          features=pl.DataFrame({"uid": list(range(nm))}))
         loader = MockLoader(tmpl, mole, order=order, scale=s)
+    elif hand:
+        from acryo.loader._group import LoaderGroup
+
+        n0 = max(1, nm // 2)
+        groups = [g for g in (list(range(n0)), list(range(n0, nm))) if g]
+        scales = [s, s / 1.5]
+        members = []
+        for gi, g in enumerate(groups):
+            sg = scales[gi]
+            if gi == 1:   # displacements of the finer loader use its own, larger, pixel range
+                for j in g:
+                    ms[j] = rng.uniform(-Mx, Mx, size=3)
+                    if rng.random() < 0.5:
+                        ms[j][int(rng.integers(0, 3))] = rng.uniform(M + 0.3, Mx) * rng.choice([-1, 1])
+            vol, pp = build_tomo(g, len(g))
+            for j, c in zip(g, pp):
+                p_true[j] = c * sg
+            pin = np.array([p_true[j] - sg * R_in[j].apply(ms[j]) for j in g])
+            mo = Molecules(pin, Rotation.from_quat(np.stack([R_in[j].as_quat() for j in g])),
+                           features=pl.DataFrame({"uid": g}))
+            members.append((f"k{gi}", SubtomogramLoader(vol, mo, order=order, scale=sg, output_shape=shape)))
+        loader = LoaderGroup(members)
+        scale_of = {j: scales[gi] for gi, g in enumerate(groups) for j in g}
+        case.count("hand_made_groups")
     elif kind == "batch":
         n0 = max(1, nm // 2)
         groups = [list(range(n0)), list(range(n0, nm))]
@@ -188,6 +216,9 @@ def run(case):
     # ---- run
     if kind in ("single", "batch", "mock"):
         out = loader.align(tmpl, max_shifts=ms_nm, alignment_model=Model, **kw).molecules
+    elif hand:
+        grp = loader.align(tmpl, max_shifts=(ms_nm,) * 3, alignment_model=Model, **kw)
+        out = Molecules.concat([ld.molecules for _, ld in grp])
     elif kind == "group":
         grp = loader.groupby("g").align(tmpl, max_shifts=(ms_nm,) * 3, alignment_model=Model, **kw)
         out = Molecules.concat([ld.molecules for _, ld in grp])
@@ -230,7 +261,9 @@ def run(case):
         return
 
     f = out.features
+    s_common = s
     for i, j in enumerate(uid):
+        s = scale_of[j] if hand else s_common
         perr = float(np.abs(out.pos[i].astype(float) - p_true[j]).max()) / s
         ang = gen.rot_angle_deg(out.rotator[i], truth_R[j])
         qk = rots[ks[j]]
